@@ -392,3 +392,36 @@ Example C02_ex_error_in_block :
 Proof. vm_compute. reflexivity. Qed.
 Example C02_ex_hoist_free : tbl_hoist_free x_tbl = true /\ forallb hoist_free [Elem (bs "p") true false [FUrl (bs "href") (x_e "u")] [Children] SpNone] = true.
 Proof. split; reflexivity. Qed.
+
+(* ---------- the variable counter of the WHOLE generator model (model/Gen.v, tied to generator.Generate byte for
+   byte on every run) ---------- *)
+From V Require Import model.Gen proofs.GenAddsProof proofs.GenLitProof proofs.GenFreshProof proofs.GenSinkProof.
+
+(* fresh_vars.  For every file and from every state the variable counter only goes up; with_var (the only place a
+   name is made, with its inlined copy in writeAttributesCSS) runs its continuation with the counter at the NEXT
+   number and hands it the name of that number, so the counter is strictly above every earlier value; and the names of
+   different numbers are different byte strings.  Hence no generated variable name is handed out twice in a run. *)
+Theorem C02_fresh_vars :
+  (forall (f : file) (g : Gen.gst), Gen.vid g <= Gen.vid (Gen.gen_all f g)) /\
+  (forall (k : bytes -> Gen.M) (g : Gen.gst),
+     Gen.with_var k g = k (vname (S (Gen.vid g))) (Gen.set_vid (S (Gen.vid g)) g) /\ Gen.vid (Gen.set_vid (S (Gen.vid g)) g) = S (Gen.vid g)) /\
+  (forall k : bytes -> Gen.M, (forall (v : bytes) (g : Gen.gst), Gen.vid g <= Gen.vid (k v g)) ->
+     forall g : Gen.gst, Gen.vid g < Gen.vid (Gen.with_var k g)) /\
+  (forall a b : nat, vname a = vname b -> a = b).
+Proof. exact (conj vid_monotone (conj with_var_next (conj with_var_strict vname_inj))). Qed.
+Print Assumptions C02_fresh_vars.
+
+(* the same at the level of what is emitted: the run of the generator on any file is the replay of a list of write
+   operations of the shape  gap, group of Var1, gap, group of Var2, ..., group of VarN, tail  (N = final counter),
+   where group k is one of the eight declaration groups of model/Gen.v for the name templ_7745c5c3_Var<k> and no
+   WriteIndent in a gap or in the tail starts with templ_7745c5c3_Var or var templ_7745c5c3_Var:
+   the numbers are declared once each, consecutively, in emission order. *)
+Theorem C02_fresh_vars_emitted : forall (fn : bytes) (f : file),
+  exists l : list op, same (gen_state fn f) (replay l (g_init fn)) /\ vseq 0 (Gen.vid (gen_state fn f)) l.
+Proof. exact fresh_vars_ops. Qed.
+Print Assumptions C02_fresh_vars_emitted.
+
+Example C02_ex_fresh_vars :
+  vname 3 = bs "templ_7745c5c3_Var3" /\ Gen.vid (gen_state (bs "t.templ") lit_file) = 3 /\
+  is_varline (bs "var templ_7745c5c3_Var3 string") = true /\ is_varline (bs "templ_7745c5c3_Err = nil") = false.
+Proof. repeat split; vm_compute; reflexivity. Qed.
